@@ -34,18 +34,7 @@ fn strategy() -> impl Strategy<Value = Case> {
 	(proptest::collection::vec(class_stream(), 1..=4), choices(), proptest::collection::vec(any::<u8>(), 0..120), 0u8..3).prop_map(|(streams, ch, map_stream, input_form)| Case { streams, ch, map_stream, input_form })
 }
 
-fn strip_unknown(attrs: &mut Vec<Attr>) {
-	attrs.retain(|a| !matches!(a, Attr::Unknown { .. }));
-	for a in attrs.iter_mut() {
-		match a {
-			Attr::Code(c) => strip_unknown(&mut c.attrs),
-			Attr::Record(rc) => rc.iter_mut().for_each(|r| strip_unknown(&mut r.attrs)),
-			_ => {}
-		}
-	}
-}
-
-/// the classes of the jar: distinct names, acyclic inheritance among them, no unknown attributes
+/// the classes of the jar: distinct names, acyclic inheritance among them (unknown attributes at every level included)
 pub fn jar_models(streams: &[Vec<u8>], max_members: usize, max_insns: usize) -> Vec<CClass> {
 	let mut out = Vec::new();
 	for (k, s) in streams.iter().enumerate().take(JAR_CLASS_NAMES.len()) {
@@ -62,10 +51,6 @@ pub fn jar_models(streams: &[Vec<u8>], max_members: usize, max_insns: usize) -> 
 		m.interfaces.dedup();
 		let mut seen = BTreeSet::new();
 		m.interfaces.retain(|i| seen.insert(i.clone()));
-		strip_unknown(&mut m.attrs);
-		for x in m.fields.iter_mut().chain(m.methods.iter_mut()) {
-			strip_unknown(&mut x.attrs);
-		}
 		out.push(m);
 	}
 	out
@@ -275,9 +260,7 @@ fn corpus_check(case: &CorpusCase, obs: &mut Obs) -> PropResult {
 		let (_, b, m) = &all[crate::engine::idx(*p, all.len())];
 		if seen.insert(m.name.clone()) {
 			class_bytes.push((m.name.clone(), b.clone()));
-			let mut m = m.clone();
-			strip_unknown(&mut m.attrs);
-			models.push(m);
+			models.push(m.clone());
 		}
 	}
 	check_jar(class_bytes, &models, &case.map_stream, case.input_form, obs)
@@ -454,7 +437,7 @@ pub fn run(ctx: &mut Ctx) {
 	crate::engine::silence_stderr();
 	ctx.rule = "jars of 1-4 generated classes (distinct names, acyclic inheritance among them and to classes outside the jar) + manifest, directory and resource entries, handed over as bytes / parsed trees / a zip archive; mapping sets generated over the names the classes use (65% of the class names, 60% of the members renamed; members declared in the owner or in a super type so that the remapper has to resolve through the jar's inheritance). Oracle: a reference renamer (positions from JVMS) applies the remapper's own answers to the model of each input class; the remapped tree and the class re-read from the written jar must equal it; entry names = remapped class name + .class; non-class entries byte-identical; every class passes the strict decoder. Non-trivial = a renamed reference inside code or a handle and a renamed member name; distinct by case hash".into();
 	ctx.assume("generic signatures, simple inner names, annotation element names, local variable / parameter names and invokedynamic / condy names are not compared (the remapper gives no answer for them)");
-	ctx.assume("unknown attributes are not generated here (their bytes may hold constant pool indices; dukebox drops them)");
+	ctx.assume("unknown attributes are opaque bytes (as for duke's reader and writer): they must come out byte-identical at the same place");
 	ctx.assume("inheritance among the classes of a jar is acyclic");
 	ctx.run_sub("remap_jar", ctx.tier.pick(12000, 600000), strategy, check);
 	ctx.run_sub(
